@@ -1,2 +1,137 @@
-def perform(a, w, rng, rec, tg):
-    raise ValueError("unknown action kind " + a["kind"])
+"""Actions, part 2: partial trace, structural calls, measurement, POVM, channels, resize, sequences."""
+from __future__ import annotations
+
+from typing import Any, Dict, List
+
+import numpy as np
+
+from . import world as W
+
+
+def complete_set(D: int, n: int, seed: int, projective: bool = False) -> List[np.ndarray]:
+    """n operators M_i on dimension D with sum M_i^dagger M_i = I (a CPTP Kraus set / complete POVM)."""
+    r = np.random.default_rng(seed)
+    if projective:
+        U = np.linalg.qr(r.normal(size=(D, D)) + 1j * r.normal(size=(D, D)))[0]
+        groups = np.array_split(np.arange(D), min(n, D))
+        out = []
+        for g in groups:
+            P = np.zeros((D, D), dtype=complex)
+            for k in g:
+                P[k, k] = 1
+            out.append(U @ P @ U.conj().T)
+        return out
+    As = [r.normal(size=(D, D)) + 1j * r.normal(size=(D, D)) for _ in range(n)]
+    Ssum = sum(A.conj().T @ A for A in As)
+    ev, V = np.linalg.eigh(Ssum)
+    Sinv = V @ np.diag(ev ** -0.5) @ V.conj().T
+    return [A @ Sinv for A in As]
+
+
+def named_channel(name: str, D: int, seed: int) -> List[np.ndarray]:
+    if name == "amplitude_damping" and D == 2:
+        g = 0.35
+        return [np.array([[1, 0], [0, np.sqrt(1 - g)]], dtype=complex), np.array([[0, np.sqrt(g)], [0, 0]], dtype=complex)]
+    if name == "dephasing":
+        p = 0.3
+        Z = np.diag(np.exp(2j * np.pi * np.arange(D) / D))
+        return [np.sqrt(1 - p) * np.eye(D, dtype=complex), np.sqrt(p) * Z]
+    if name == "unitary":
+        return complete_set(D, 1, seed)
+    if name == "reset":   # maps everything to |0>: pure output from any input
+        out = []
+        for k in range(D):
+            K = np.zeros((D, D), dtype=complex)
+            K[0, k] = 1
+            out.append(K)
+        return out
+    return complete_set(D, {"random2": 2, "random3": 3, "random4": 4}.get(name, 2), seed)
+
+
+def _J(ops):
+    import jax.numpy as jnp
+    return [jnp.array(o) for o in ops]
+
+
+def perform(a: Dict[str, Any], w, rng, rec, tg) -> List[Dict[str, Any]]:
+    kind = a["kind"]
+    entry = a.get("entry", "ce")
+    out: List[Dict[str, Any]] = []
+    if kind == "seq":
+        for sub in a["steps"]:
+            from . import actions
+            try:
+                out += actions.perform(sub, w, rng, rec) or []
+            except Exception as ex:
+                if not sub.get("may_raise"):
+                    raise
+                out.append({"prop": sub.get("raise_prop", "C17"), "clause": "step-raised-as-specified", "ok": True,
+                            "detail": f"{type(ex).__name__}", "method": "seq"})
+        return out
+    if kind == "trace_out":
+        if entry == "self":
+            tg[0].trace_out()
+        elif entry == "env":
+            tg[0].envelope.trace_out(*tg)
+        else:
+            W.ce_of(w, tg[0]).trace_out(*tg)
+        return out
+    if kind == "structural":
+        what = a["what"]
+        if entry == "self":
+            getattr(tg[0], what)()
+        elif entry == "env":
+            env = tg[0].envelope
+            if what == "reorder":
+                env.reorder(*tg)
+            else:
+                getattr(env, what)()
+        else:
+            ce = W.ce_of(w, tg[0])
+            getattr(ce, what)(*tg)
+        return out
+    if kind == "measure":
+        fl = dict(a.get("flags", {}))
+        if entry == "self":
+            tg[0].measure(**fl)
+        elif entry == "env":
+            env = tg[0].envelope if tg else w.envs[a.get("env", 0)]
+            if a.get("noargs"):
+                env.measure(**fl)
+            else:
+                env.measure(*tg, **fl)
+        else:
+            W.ce_of(w, tg[0]).measure(*tg, **fl)
+        return out
+    if kind in ("povm", "kraus"):
+        D = int(np.prod([W.dim_of(t) for t in tg]))
+        o = a["ops"]
+        if kind == "povm":
+            ops = complete_set(D, o.get("n", 2), o.get("seed", 1), projective=o.get("projective", False))
+        else:
+            ops = named_channel(o["name"], D, o.get("seed", 1))
+        ops = _J(ops)
+        fl = dict(a.get("flags", {}))
+        meth = "measure_POVM" if kind == "povm" else "apply_kraus"
+        if entry == "self":
+            getattr(tg[0], meth)(ops, **fl)
+        elif entry == "env":
+            fl.pop("partial", None)
+            getattr(tg[0].envelope, meth)(ops, *tg, **fl)
+        else:
+            fl.pop("partial", None)
+            getattr(W.ce_of(w, tg[0]), meth)(ops, *tg, **fl)
+        return out
+    if kind == "resize":
+        nd = a["new"]
+        if isinstance(nd, str):    # relative to the current dimension, e.g. "+2", "-1", "top" (= highest populated + 1)
+            cur = W.dim_of(tg[0])
+            nd = cur + int(nd)
+        if entry == "self":
+            tg[0].resize(nd)
+        elif entry == "env":
+            tg[0].envelope.resize_fock(nd)
+        else:
+            W.ce_of(w, tg[0]).resize_fock(nd, tg[0])
+        return out
+    raise ValueError("unknown action kind " + kind)
